@@ -6,6 +6,33 @@ BASELINE = ("cd /repo && cargo nextest run --workspace --no-fail-fast --test-thr
             "|| cargo test --workspace --no-fail-fast --offline")
 
 CHECKS = {
+    "C10": dict(
+        category="exploration",
+        text=("For generated settings (six presets), models, seeds and 1..8 chains the parallel Sampler is run several times with num_cores from "
+              "{1,2,3,8,16}, a generated per-evaluation delay plan (sleep / yield / spin) inside the density and a generated script of pause, "
+              "resume, progress, flush and inspect calls; a recording storage backend (storage traits re-exported by a cfg-guarded hook) "
+              "captures every record_sample argument. Oracle: every run's per-chain trace is bit-identical to the chain run alone through "
+              "Settings::new_chain with ChaCha8(seed, stream = chain + 1) and the documented call order, and no two chains record the same "
+              "first draw. The oracle is schedule-free, so any difference is a violation even if the interleaving does not replay."),
+        design_ref="DESIGN.md section 3, C10",
+        note=("Schedule independence is explored, not proved: timing is perturbed inside the density and by command timing; the OS scheduler "
+              "inside blocking calls, mutex acquisition and rayon's work stealing is not controlled."),
+        technique="proptest-generated runs with schedule perturbation, differential against the sequential single-chain reference",
+    ),
+    "C13": dict(
+        category="fault_enumeration",
+        text=("Faults are injected at the density (unrecoverable error at evaluation k of a chain, k over initialisation / warmup / sampling; "
+              "recoverable errors, including one targeted at the base point of the re-run step-size search), at the storage traits "
+              "(record_sample at draw t, finalize, flush, chain initialisation - through the recording backend), at Model::math, at "
+              "init_position, and by rejecting all 500 initial points; one or two faults per run, 1..4 chains, 1..4 cores, optional command "
+              "script, ended by wait_timeout or abort, all under catch_unwind and a watchdog. Oracle: every fatal fault that was reached "
+              "yields an Err value (never a panic of the caller, a hang or success); recoverable density errors alone always end in a "
+              "complete trace."),
+        design_ref="DESIGN.md section 3, C13",
+        note=("Allocation failure, thread-spawn failure and poisoned mutexes are not reachable by this injection. A density fault whose index "
+              "lies beyond the evaluations actually performed is detected (evaluation counters) and not judged."),
+        technique="fault injection at density / model / storage boundaries of generated parallel runs (proptest), result classification under watchdog",
+    ),
     "C04": dict(
         category="exploration",
         text=("Statistical end-to-end check through the public API: every combination of {diagonal, low-rank} x {Euclidean, ExactNormal} x "
